@@ -17,6 +17,7 @@ class PDAObjectCreator:
             self._inverse_stack_symbol[variable] = None
         self._variable_values = {str(variable.value)
                                  for variable in variables}
+        self._used_variable_values = set()
 
     def get_symbol_from(self, symbol):
         """Get a symbol"""
@@ -41,6 +42,13 @@ class PDAObjectCreator:
                 # stack symbols of the variables
                 while value in self._variable_values:
                     value = "#" + value
+            else:
+                # Two different variables can have the same text
+                if value in self._used_variable_values:
+                    while value in self._variable_values:
+                        value += "'"
+                    self._variable_values.add(value)
+                self._used_variable_values.add(value)
             temp = pda.StackSymbol(value)
             self._inverse_stack_symbol[stack_symbol] = temp
             return temp
